@@ -333,6 +333,10 @@ func DataflowCheck(prop string) {
 				scheds = append(scheds, Schedule{Lag: map[string]int{k: 1}})
 				scheds = append(scheds, Schedule{StartOnly: map[string]bool{k: true}})
 			}
+			if level >= 1 && strings.HasSuffix(k, ".split") {
+				// the split job is still running when mrp reads its _stage_defs
+				scheds = append(scheds, Schedule{Linger: map[string]bool{k: true}})
+			}
 		}
 		for i, pp := range res.PermPoints {
 			if level < 2 || (!frontierSite(pp.Site) && level < 3) {
